@@ -79,7 +79,9 @@ def run(ctx):
         def res_is(name, want):
             def p(atom, pol):
                 n = fe.N(atom)
-                return n['k'] == 'BinaryOperator' and n.get('op') == '==' and fe.ref_of(n['ch'][0]) == resv and any(x.endswith('tcp_cache::' + name) for x in fe.subtree_refs(n['ch'][1])) and pol is want
+                if n['k'] != 'BinaryOperator' or n.get('op') not in ('==', '!=') or fe.ref_of(n['ch'][0]) != resv or not any(x.endswith('tcp_cache::' + name) for x in fe.subtree_refs(n['ch'][1])):
+                    return False
+                return (pol is want) if n['op'] == '==' else (pol is (not want))
             return fe.gate_edges(p)
         # success without re-storing only when up_to_date
         upd = res_is('up_to_date', True)
@@ -96,7 +98,8 @@ def run(ctx):
         a = real_args(fe, s)
         ok = len(a) == 5 and fe.ref_of(a[4]) == genp and fe.ref_of(a[0]) == keyp
         ctx.check(ok, R1, 'fetch:l1-store#%d:stored-under-server-generation' % k, 'L1 copy is not stamped with the generation received from the server (default gen=0 lets L1 invent one)', fe.loc(s))
-        g_found = fe.gate_edges(lambda atom, pol: fe.N(atom)['k'] == 'BinaryOperator' and fe.N(atom).get('op') == '==' and any(x.endswith('tcp_cache::found') for x in fe.subtree_refs(atom)) and pol is True)
+        g_found = fe.gate_edges(lambda atom, pol: fe.N(atom)['k'] == 'BinaryOperator' and fe.N(atom).get('op') in ('==', '!=') and any(x.endswith('tcp_cache::found') for x in fe.subtree_refs(atom)) and
+                                ((fe.N(atom)['op'] == '==' and pol is True) or (fe.N(atom)['op'] == '!=' and pol is False)))
         ctx.check(fe.only_through(s, list(g_found) + list(g_hit)), R1, 'fetch:l1-store#%d:only-server-data' % k, 'L1 filled without data from the server', fe.loc(s))
     miss_tf = [i for i in tf if i not in hit_tf]
     for k, i in enumerate(miss_tf):
@@ -201,7 +204,7 @@ def run(ctx):
     ok = len(found) == 1 and len(asg) == 1 and any(x.endswith('data_len') for x in cfetch.subtree_refs(asg[0]))
     if ok:
         g_data = cfetch.gate_edges(lambda atom, pol: cfetch.N(atom)['k'] == 'BinaryOperator' and cfetch.N(atom).get('op') == '!=' and any(x.endswith('opcodes::data') for x in cfetch.subtree_refs(atom)) and pol is False)
-        start = [t for (_, t, _, _) in g_data]
+        start = [t for (_, t, _, _) in [e for e in g_data if len(e) == 4]]
         ok = bool(start)
         for sblk in start:
             reach = cfetch.reachable_blocks(start=sblk, cut_blocks=q.blocks_of(cfetch, asg))
@@ -217,11 +220,17 @@ def run(ctx):
 
     # ---------------- R6
     slen = sstore.gate_edges(lambda atom, pol: sstore.N(atom)['k'] == 'BinaryOperator' and sstore.N(atom).get('op') == '!=' and
-                             {'key_len', 'data_len', 'triggers_len'} <= set(x.rsplit('::', 1)[-1] for x in sstore.subtree_refs(sstore.N(atom)['ch'][0])) and
-                             any(x.endswith('tcp_operation_header::size') for x in sstore.subtree_refs(sstore.N(atom)['ch'][1])) and pol is False)
-    sites = [i for i in sstore.calls() if q.short_of(sstore.callee(i)) == 'assign' and any(x.endswith('session::data_in_') for x in map(model.strip_targs, sstore.subtree_refs(i)))]
-    sites += [i for i in sstore.all_nodes() if sstore.N(i)['k'] == 'DeclStmt' and any(d['name'] == 'p' for d in sstore.N(i)['decls'])]
-    ctx.require(len(sites) >= 3, 'C10.R6: slicing sites in session::store not found')
+                             {'key_len', 'data_len', 'triggers_len'} <= set(x.rsplit('::', 1)[-1] for x in q.deep_refs(sstore, sstore.N(atom)['ch'][0]) if x.startswith('f:')) and
+                             any(x.endswith('tcp_operation_header::size') for x in q.deep_refs(sstore, sstore.N(atom)['ch'][1])) and pol is False)
+    # every place where the input buffer is sliced: iterator arithmetic on data_in_ (begin()+n) and ranges built from it
+    sites = []
+    for i in sstore.all_nodes():
+        n = sstore.N(i)
+        if n['k'] == 'CXXOperatorCallExpr' and n.get('op') in ('+', '+=') and any(model.strip_targs(x).endswith('session::data_in_') for x in sstore.subtree_refs(i)) and sstore.point_of(i):
+            par = sstore.parent.get(i)
+            inner = par is not None and sstore.N(par)['k'] == 'CXXOperatorCallExpr' and sstore.N(par).get('op') == '+'
+            if not inner:
+                sites.append(i)
     for k, i in enumerate(sites):
         ctx.check(sstore.only_through(i, slen), R6, 'session::store:slice#%d:after-length-equation' % k, 'input sliced without checking key_len+data_len+triggers_len == size', sstore.loc(i))
     for name, op, val in (('save', '<', 32), ('load', '!=', 32), ('remove', '!=', 32)):
